@@ -248,7 +248,9 @@ def run_case(emit, cid, cs, rng, sample=False):
                                            "budget (%d,%d): returned w differs from hook state" % (t + 1, e + 1)))
     # ------------------------------------------------------------------ (iii) boundary prefix chains (no hooks)
     chainF = []
-    if case.solver_name != "GramCD":
+    if nondeterministic:
+        pass     # separate runs of this cell use differently rounded Lipschitz constants: not one trajectory
+    elif case.solver_name != "GramCD":
         for e in (1, 2, 5, 6, 7, 8, 12, 13, 14, 15):
             b2 = {b_it: 1}
             if b_ep:
